@@ -209,6 +209,308 @@ theorem computePropensities_val (hR : Refines e T L) (x : Vec Rat) (hx : x.size 
   · show g'.a0 + _ = _
     rw [ha0vD, a0dPart_succ_slot]; ring
 
+/-! ### applying an event -/
+
+/-- `mesh_x` holds the core state `Y` -/
+def Agree (T : Tabs) (x : Vec Rat) (Y : State) : Prop := ∀ i s, i < T.n → s < T.ns → x.get (i * T.ns + s) = Y i s
+
+theorem agree_abs (x : Vec Rat) : Agree T x (absState T.ns x) := fun _ _ _ _ => rfl
+
+/-- writing entry (i, s) is `State.update` -/
+theorem agree_wr {x x' : Vec Rat} {Y : State} (h : Agree T x Y) {i s : Nat} (hs : s < T.ns) (v : Rat)
+    (hw : x'.get (i * T.ns + s) = v ∧ ∀ k, k ≠ i * T.ns + s → x'.get k = x.get k) : Agree T x' (Y.update i s v) := by
+  intro i' s' hi' hs'
+  show x'.get (i' * T.ns + s') = if i' = i ∧ s' = s then v else Y i' s'
+  by_cases heq : i' = i ∧ s' = s
+  · obtain ⟨e1, e2⟩ := heq; subst e1 e2; rw [if_pos ⟨rfl, rfl⟩]; exact hw.1
+  · rw [if_neg heq]
+    have hne : i' * T.ns + s' ≠ i * T.ns + s := fun hh => heq (flat2_inj hs' hs hh)
+    rw [hw.2 _ hne]; exact h i' s' hi' hs'
+
+/-- `ApplyReaction` ↔ `applyEvent (.reaction i r)` -/
+theorem applyReactionC_val (hR : Refines e T L) (x : Vec Rat) (hx : x.size = T.n * T.ns) {i r : Nat} (hi : i < T.n) (hr : r < T.nr) :
+    Ok (applyReactionC T x i r) (fun x' => x'.size = T.n * T.ns ∧ Agree T x' (applyEvent e (absState T.ns x) (.reaction i r))) := by
+  let X := absState T.ns x
+  unfold applyReactionC
+  refine Ok.mono (Ok.forUpTo (fun k (y : Vec Rat) => y.size = T.n * T.ns ∧ ∀ i' s', i' < T.n → s' < T.ns →
+      y.get (i' * T.ns + s') = if i' = i ∧ s' < k ∧ e.chem i s' = false then X i s' + (e.net.sto s' r : Rat) else X i' s')
+    ⟨hx, fun i' s' _ _ => by simp; rfl⟩ (fun s hs y hy => ?_)) (fun y hy => ⟨hy.1, fun i' s' hi' hs' => ?_⟩)
+  swap
+  · rw [hy.2 i' s' hi' hs']
+    show _ = if i' = i ∧ (!e.chem i s') = true then X i s' + (e.net.sto s' r : Rat) else X i' s'
+    by_cases h1 : i' = i
+    · subst h1
+      cases hc : e.chem i' s' <;> simp [hs', hc]
+    · simp [h1]
+  refine Ok.bind (rd_chem hR hi hs) (fun c hc => ?_)
+  by_cases hcz : c ≠ 0
+  · rw [if_pos hcz]
+    refine Ok.pure ⟨hy.1, fun i' s' hi' hs' => ?_⟩
+    rw [hy.2 i' s' hi' hs']
+    have hch : e.chem i s = true := hc.mp hcz
+    by_cases h1 : i' = i ∧ s' < s ∧ e.chem i s' = false
+    · rw [if_pos h1, if_pos ⟨h1.1, by omega, h1.2.2⟩]
+    · rw [if_neg h1, if_neg]
+      rintro ⟨e1, e2, e3⟩
+      have : s' = s ∨ s' < s := by omega
+      rcases this with rfl | hlt
+      · rw [hch] at e3; cases e3
+      · exact h1 ⟨e1, hlt, e3⟩
+  rw [if_neg hcz]
+  have hch : e.chem i s = false := by
+    cases h : e.chem i s with
+    | false => rfl
+    | true => exact absurd (hc.mpr h) hcz
+  refine Ok.bind (rd_x y hy.1 hi hs) (fun xv hxv => ?_)
+  refine Ok.bind (rd_sto hR hs hr) (fun sv hsv => ?_)
+  refine Ok.mono (wr_x y hy.1 hi hs _) (fun y' h => ⟨h.1, fun i' s' hi' hs' => ?_⟩)
+  by_cases heq : i' = i ∧ s' = s
+  · obtain ⟨e1, e2⟩ := heq; subst e1 e2
+    rw [h.2.1, if_pos ⟨rfl, by omega, hch⟩, hxv, hy.2 i' s' hi hs, if_neg (by omega), hsv]
+  · have hne : i' * T.ns + s' ≠ i * T.ns + s := fun hh => heq (flat2_inj hs' hs hh)
+    rw [h.2.2 _ hne, hy.2 i' s' hi' hs']
+    by_cases h1 : i' = i ∧ s' < s ∧ e.chem i s' = false
+    · rw [if_pos h1, if_pos ⟨h1.1, by omega, h1.2.2⟩]
+    · rw [if_neg h1, if_neg]
+      rintro ⟨e1, e2, e3⟩
+      have : s' = s ∨ s' < s := by omega
+      rcases this with e4 | hlt
+      · exact heq ⟨e1, e4⟩
+      · exact h1 ⟨e1, hlt, e3⟩
+
+/-- `ApplyDiffusion` through a slot with a neighbour ↔ `applyEvent (.diffusion i s k)` -/
+theorem applyDiffusionC_val (hR : Refines e T L) (x : Vec Rat) (hx : x.size = T.n * T.ns)
+    {i s k j : Nat} (hi : i < T.n) (hs : s < T.ns) (hk : k < e.topo.nSlots i) (hnb : e.topo.nbr i k = some j) :
+    Ok (applyDiffusionC T L x i s k) (fun x' => x'.size = T.n * T.ns ∧ Agree T x' (applyEvent e (absState T.ns x) (.diffusion i s k))) := by
+  let X := absState T.ns x
+  unfold applyDiffusionC
+  rw [hR.layout.nbr i k hi hk, ok_bind, hnb]
+  dsimp only
+  have hj := hR.layout.nbr_lt i k j hi hk hnb
+  refine Ok.bind (rd_chem hR hi hs) (fun c hc => ?_)
+  -- first half
+  let Y1 : State := if e.chem i s then X else X.update i s (X i s - 1)
+  have hx1 : Ok (if c ≠ 0 then (.ok x : CRes (Vec Rat)) else x.rd (T.xIdx i s) >>= fun xv => x.wr (T.xIdx i s) (xv - 1))
+      (fun x1 => x1.size = T.n * T.ns ∧ Agree T x1 Y1) := by
+    by_cases hcz : c ≠ 0
+    · rw [if_pos hcz]
+      refine Ok.pure ⟨hx, ?_⟩
+      show Agree T x (if e.chem i s then X else _)
+      rw [if_pos (hc.mp hcz)]; exact agree_abs x
+    · rw [if_neg hcz]
+      have hch : e.chem i s = false := by
+        cases h : e.chem i s with
+        | false => rfl
+        | true => exact absurd (hc.mpr h) hcz
+      refine Ok.bind (rd_x x hx hi hs) (fun xv hxv => ?_)
+      refine Ok.mono (wr_x x hx hi hs _) (fun x1 h => ⟨h.1, ?_⟩)
+      show Agree T x1 (if e.chem i s then X else _)
+      rw [hch]
+      simp only [Bool.false_eq_true, if_false]
+      have := agree_wr (agree_abs x) hs (xv - 1) ⟨h.2.1, h.2.2⟩
+      rw [hxv] at this
+      exact this
+  refine Ok.bind hx1 (fun x1 hx1 => ?_)
+  refine Ok.bind (rd_chem_nbr hR hj hs) (fun cj hcj => ?_)
+  have hres : applyEvent e X (.diffusion i s k) = if e.chem j s then Y1 else Y1.update j s (Y1 j s + 1) := by
+    show (match e.topo.nbr i k with | none => Y1 | some j => if e.chem j s then Y1 else Y1.update j s (Y1 j s + 1)) = _
+    rw [hnb]
+  rw [hres]
+  by_cases hcz : cj ≠ 0
+  · rw [if_pos hcz, if_pos (hcj.mp hcz)]; exact Ok.pure hx1
+  · rw [if_neg hcz]
+    have hch : e.chem j s = false := by
+      cases h : e.chem j s with
+      | false => rfl
+      | true => exact absurd (hcj.mpr h) hcz
+    rw [hch]
+    simp only [Bool.false_eq_true, if_false]
+    refine Ok.bind (rd_x_nbr x1 hx1.1 hj hs) (fun xj hxj => ?_)
+    refine Ok.mono (wr_x_nbr x1 hx1.1 hj hs _) (fun x2 h => ⟨h.1, ?_⟩)
+    have := agree_wr hx1.2 hs (xj + 1) ⟨h.2.1, h.2.2⟩
+    rw [hxj, hx1.2 j s hj hs] at this
+    exact this
+
+/-! ### `DrawAndApplyEvent` ↔ `selectEvent` + `applyEvent` -/
+
+/-- the state after the selected event (none selected: unchanged) -/
+def evRes (e : EngIn) (X : State) : Option Event → State
+  | some v => applyEvent e X v
+  | none => X
+
+theorem range'_cons (s m : Nat) (h : s < m) : List.range' s (m - s) = s :: List.range' (s + 1) (m - (s + 1)) := by
+  have : m - s = (m - (s + 1)) + 1 := by omega
+  rw [this, List.range'_succ]
+
+/-- species `s ..` of the (species, slot) list scanned by `DrawAndApplyEvent` -/
+def slotSuffix (ns slots s : Nat) : List (Nat × Nat) :=
+  (List.range' s (ns - s)).flatMap fun s' => (List.range slots).map fun n => (s', n)
+
+def slotSuffix2 (ns slots s k : Nat) : List (Nat × Nat) :=
+  (List.range' k (slots - k)).map (fun n => (s, n)) ++ slotSuffix ns slots (s + 1)
+
+theorem slotSuffix2_zero (ns slots s : Nat) (hs : s < ns) : slotSuffix2 ns slots s 0 = slotSuffix ns slots s := by
+  unfold slotSuffix2 slotSuffix
+  rw [range'_cons s ns hs, List.flatMap_cons, Nat.sub_zero, List.range_eq_range']
+
+theorem slotSuffix2_cons (ns slots s k : Nat) (hk : k < slots) :
+    slotSuffix2 ns slots s k = (s, k) :: slotSuffix2 ns slots s (k + 1) := by
+  unfold slotSuffix2
+  rw [range'_cons k slots hk]; rfl
+
+theorem slotSuffix2_end (ns slots s : Nat) : slotSuffix2 ns slots s slots = slotSuffix ns slots (s + 1) := by
+  unfold slotSuffix2; simp
+
+theorem drawAndApplyEvent_val (hR : Refines e T L) (x : Vec Rat) (hx : x.size = T.n * T.ns) (g : GilSt)
+    (hP : PropsOK e T L (absState T.ns x) g) (r : Rat) :
+    Ok (drawAndApplyEvent T L g r x) (fun x' => x'.size = T.n * T.ns ∧
+      Agree T x' (evRes e (absState T.ns x) (selectEvent e (absState T.ns x) r (List.range e.topo.nCells) 0))) := by
+  let X := absState T.ns x
+  let sel := selectEvent e X r (List.range T.n) 0
+  unfold drawAndApplyEvent
+  rw [← hR.n]
+  let InvO := fun (i : Nat) (st : ScanSt) => st.x.size = T.n * T.ns ∧
+    (st.done = false → st.x = x ∧ sel = selectEvent e X r (List.range' i (T.n - i)) st.cum) ∧
+    (st.done = true → Agree T st.x (evRes e X sel))
+  have hstart : InvO 0 { cum := 0, done := false, x := x } :=
+    ⟨hx, fun _ => ⟨rfl, by show sel = _; rw [Nat.sub_zero, ← List.range_eq_range']⟩, fun h => by cases h⟩
+  refine Ok.bind (Ok.forUpTo (fun i st => InvO i st) hstart (fun i hi st hst => ?_)) (fun st hst => Ok.pure ⟨hst.1, ?_⟩)
+  swap
+  · by_cases hd : st.done = true
+    · exact hst.2.2 hd
+    · simp only [Bool.not_eq_true] at hd
+      obtain ⟨hxe, hsel⟩ := hst.2.1 hd
+      rw [Nat.sub_self] at hsel
+      have : sel = none := hsel
+      show Agree T st.x (evRes e X sel)
+      rw [this, hxe]; exact agree_abs x
+  by_cases hd : st.done = true
+  · rw [if_pos hd]; exact Ok.pure ⟨hst.1, fun h => (by rw [hd] at h; cases h), hst.2.2⟩
+  rw [if_neg hd]
+  simp only [Bool.not_eq_true] at hd
+  obtain ⟨hxe, hsel⟩ := hst.2.1 hd
+  rw [range'_cons i T.n hi] at hsel
+  simp only [selectEvent] at hsel
+  refine Ok.bind (Vec.rd_nat g.a0r i (by rw [hP.ok.a0r]; exact hi)) (fun ar0 har0 => ?_)
+  have har0v : ar0 = a0r e X i := by rw [har0]; exact hP.a0r i hi
+  rw [har0v]
+  by_cases hreac : r < st.cum + a0r e X i
+  · -- reaction
+    rw [if_pos hreac]
+    rw [if_pos hreac] at hsel
+    let r2 := r - st.cum
+    let sr := scanReactions e X i r2 (List.range e.net.nReact) 0
+    let InvR := fun (j : Nat) (s2 : ScanSt) => s2.x.size = T.n * T.ns ∧
+      (s2.done = false → s2.x = x ∧ sr = scanReactions e X i r2 (List.range' j (T.nr - j)) s2.cum) ∧
+      (s2.done = true → Agree T s2.x (evRes e X sr))
+    have hR0 : InvR 0 { cum := 0, done := false, x := st.x } :=
+      ⟨hst.1, fun _ => ⟨hxe, by show sr = _; rw [Nat.sub_zero, ← List.range_eq_range', hR.nr]⟩, fun h => by cases h⟩
+    refine Ok.bind (Ok.forUpTo (fun j s2 => InvR j s2) hR0 (fun j hj s2 hs2 => ?_)) (fun s2 hs2 => Ok.pure ⟨hs2.1, fun h => (by cases h), fun _ => ?_⟩)
+    swap
+    · show Agree T s2.x (evRes e X sel)
+      rw [hsel]
+      by_cases hd2 : s2.done = true
+      · exact hs2.2.2 hd2
+      · simp only [Bool.not_eq_true] at hd2
+        obtain ⟨hxe2, hsr⟩ := hs2.2.1 hd2
+        rw [Nat.sub_self] at hsr
+        have : sr = none := hsr
+        show Agree T s2.x (evRes e X sr)
+        rw [this, hxe2]; exact agree_abs x
+    by_cases hd2 : s2.done = true
+    · rw [if_pos hd2]; exact Ok.pure ⟨hs2.1, fun h => (by rw [hd2] at h; cases h), hs2.2.2⟩
+    rw [if_neg hd2]
+    simp only [Bool.not_eq_true] at hd2
+    obtain ⟨hxe2, hsr⟩ := hs2.2.1 hd2
+    rw [range'_cons j T.nr hj] at hsr
+    simp only [scanReactions] at hsr
+    rw [arIndex_nat]
+    refine Ok.bind (Vec.rd_nat g.ar _ (by rw [hP.ok.ar]; exact flat2_lt T.n T.nr i j hi hj)) (fun av hav => ?_)
+    have havv : av = reactionProp e X i j := by rw [hav]; exact hP.ar i j hi hj
+    rw [havv]
+    by_cases hselj : r - st.cum < s2.cum + reactionProp e X i j
+    · rw [if_pos hselj]
+      rw [if_pos hselj] at hsr
+      rw [hxe2]
+      refine Ok.bind (applyReactionC_val hR x hx hi hj) (fun x' hx' => Ok.pure ⟨hx'.1, fun h => (by cases h), fun _ => ?_⟩)
+      show Agree T x' (evRes e X sr)
+      rw [hsr]; exact hx'.2
+    · rw [if_neg hselj]
+      rw [if_neg hselj] at hsr
+      exact Ok.pure ⟨hs2.1, fun _ => ⟨hxe2, hsr⟩, fun h => by rw [hd2] at h; cases h⟩
+  · rw [if_neg hreac]
+    rw [if_neg hreac] at hsel
+    refine Ok.bind (Vec.rd_nat g.a0d i (by rw [hP.ok.a0d]; exact hi)) (fun ad0 had0 => ?_)
+    have had0v : ad0 = a0d e X i := by rw [had0]; exact hP.a0d i hi
+    rw [had0v]
+    by_cases hdiff : r < st.cum + a0r e X i + a0d e X i
+    swap
+    · rw [if_neg hdiff]
+      rw [if_neg hdiff] at hsel
+      exact Ok.pure ⟨hst.1, fun _ => ⟨hxe, hsel⟩, fun h => by rw [hd] at h; cases h⟩
+    rw [if_pos hdiff]
+    rw [if_pos hdiff] at hsel
+    rw [hR.layout.nSlots i hi, ok_bind]
+    let r2 := r - (st.cum + a0r e X i)
+    let slots := e.topo.nSlots i
+    let sd := scanDiffusion e X i r2 (speciesSlots e i) 0
+    have hsd0 : speciesSlots e i = slotSuffix T.ns slots 0 := by
+      unfold speciesSlots slotSuffix
+      rw [Nat.sub_zero, ← List.range_eq_range', hR.ns]
+    let InvS := fun (l : List (Nat × Nat)) (s2 : ScanSt) => s2.x.size = T.n * T.ns ∧
+      (s2.done = false → s2.x = x ∧ sd = scanDiffusion e X i r2 l s2.cum ∧ s2.cum ≤ r2) ∧
+      (s2.done = true → Agree T s2.x (evRes e X sd))
+    have hS0 : InvS (slotSuffix T.ns slots 0) { cum := 0, done := false, x := st.x } :=
+      ⟨hst.1, fun _ => ⟨hxe, by show sd = _; rw [← hsd0], by
+        show (0 : Rat) ≤ r - (st.cum + a0r e X i)
+        have := not_lt.mp hreac
+        linarith⟩, fun h => by cases h⟩
+    refine Ok.bind (Ok.forUpTo (fun s s2 => InvS (slotSuffix T.ns slots s) s2) hS0 (fun s hs s2 hs2 => ?_))
+      (fun s2 hs2 => Ok.pure ⟨hs2.1, fun h => (by cases h), fun _ => ?_⟩)
+    swap
+    · show Agree T s2.x (evRes e X sel)
+      rw [hsel]
+      by_cases hd2 : s2.done = true
+      · exact hs2.2.2 hd2
+      · simp only [Bool.not_eq_true] at hd2
+        obtain ⟨hxe2, hsdv, _⟩ := hs2.2.1 hd2
+        have hnil : slotSuffix T.ns slots T.ns = [] := by unfold slotSuffix; simp
+        rw [hnil] at hsdv
+        have : sd = none := hsdv
+        show Agree T s2.x (evRes e X sd)
+        rw [this, hxe2]; exact agree_abs x
+    rw [← slotSuffix2_zero T.ns slots s hs] at hs2
+    refine Ok.mono (Ok.forUpTo (fun k s2 => InvS (slotSuffix2 T.ns slots s k) s2) hs2 (fun k hk s2 hs2 => ?_))
+      (fun s2 hs2 => by rw [slotSuffix2_end] at hs2; exact hs2)
+    by_cases hd2 : s2.done = true
+    · rw [if_pos hd2]; exact Ok.pure ⟨hs2.1, fun h => (by rw [hd2] at h; cases h), hs2.2.2⟩
+    rw [if_neg hd2]
+    simp only [Bool.not_eq_true] at hd2
+    obtain ⟨hxe2, hsdv, hle⟩ := hs2.2.1 hd2
+    rw [slotSuffix2_cons T.ns slots s k hk] at hsdv
+    simp only [scanDiffusion] at hsdv
+    obtain ⟨a, ha, _⟩ := hR.layout.slot i s k hi hs hk
+    rw [ha, ok_bind, hP.ad i s k hi hs hk a ha, ok_bind]
+    by_cases hselk : r - (st.cum + a0r e X i) < s2.cum + diffPropSlot e X i s k
+    · rw [if_pos hselk]
+      rw [if_pos hselk] at hsdv
+      -- the selected slot has a neighbour: its propensity is positive
+      cases hnb : e.topo.nbr i k with
+      | none =>
+        exfalso
+        have h0 : diffPropSlot e X i s k = 0 := by unfold diffPropSlot; rw [hnb]; rfl
+        rw [h0] at hselk
+        have : s2.cum ≤ r - (st.cum + a0r e X i) := hle
+        linarith
+      | some j =>
+        rw [hxe2]
+        refine Ok.bind (applyDiffusionC_val hR x hx hi hs hk hnb) (fun x' hx' => Ok.pure ⟨hx'.1, fun h => (by cases h), fun _ => ?_⟩)
+        show Agree T x' (evRes e X sd)
+        rw [hsdv]; exact hx'.2
+    · rw [if_neg hselk]
+      rw [if_neg hselk] at hsdv
+      exact Ok.pure ⟨hs2.1, fun _ => ⟨hxe2, hsdv, not_lt.mp hselk⟩, fun h => by rw [hd2] at h; cases h⟩
+
 end gil
 
 end Strengths
